@@ -91,6 +91,14 @@ theorem C20_one_outcome (p : Reprice) (rev : Bool) (r : Rate) (toQi : Bool)
       · simp; exact (C20_conversion_monotone r _ _ hb.1).2
       · simp; exact (C20_conversion_monotone r _ _ hb.1).1
 
+/-- The hypothesis `D ≤ A` of `C20_repriced_bounds` is what the current protocol (after the ConversionSlipChangeBlock
+fork) provides: there D is the cubic discount *of* the block's conversion amount A.  Before that fork the discount was
+taken of the running flow amount, so D could exceed A - and then a conversion is repriced above its original amount.
+The real prime chain does this in that regime (known finding, area c04h). -/
+theorem C20_counterexample_legacy_discount :
+    ∃ p : Reprice, p.actual < p.discounted ∧ p.afterKQuai ≤ p.discounted ∧ p.original < repriced p :=
+  ⟨{ original := 1000, discounted := 10000, actual := 2000, afterKQuai := 10000, kQuaiApplies := false }, by decide⟩
+
 /-- a slippage revert happens exactly when the repriced value is below the sender's bound -/
 theorem C20_slip_revert_iff (p : Reprice) (slip range : Nat) :
     slipReverts p slip range = true ↔ repriced p < p.original * (range - slip) / range := by
